@@ -31,6 +31,9 @@ static const char* names[] = {
     "fixed16: insert(a) || emplace(a) || contains(a) (equal tags, neighbouring key b present)",
     "fixed32/64, the home group of the key is full (second / last probe group): emplace(a) || find(a)",
     "fixed16, group wraps the table end: emplace(a),find(a) || emplace(a),find(a) (each thread looks its own insertion up)",
+    "fixed16: key a reaches bucket 0 through a window that wraps the table end, key b through its home window: emplace(a),find(a) || emplace(b),find(b)",
+    "growing map, 16-bucket head holding 15 keys: emplace(a),find(a) || emplace(b),find(b): one of them overflows into a new table",
+    "growing map with a full 16-bucket head and a second table one short of full: emplace(a),find(a) || emplace(b),find(b): the loser opens a third table",
 };
 int harness_configs() { return sizeof(names) / sizeof(names[0]); }
 const char* harness_config_name(int c) { return names[c]; }
@@ -139,6 +142,41 @@ void harness_main(int cfg) {
       ts.emplace_back([&] { do_emplace(t, 1, r[1]); do_find(t, 1, r[3]); });
       for (auto& x : ts) x.join();
       check_key(1, {&r[0], &r[1]}, {&r[2], &r[3]}, true);
+      break;
+    }
+    case 10: {
+      Fixed t(16); scope_values(t);
+      set_hash(1, 12, 0x33); set_hash(2, 0, 0x35);
+      for (int k = 40; k < 44; k++) { set_hash(k, 12, 0x40 + (k - 40)); bbmc::require(t.emplace(k, k * 3).second, "prefill"); }   // buckets 12..15
+      ts.emplace_back([&] { do_emplace(t, 1, r[0]); do_find(t, 1, r[2]); });
+      ts.emplace_back([&] { do_emplace(t, 2, r[1]); do_find(t, 2, r[3]); });
+      for (auto& x : ts) x.join();
+      check_key(1, {&r[0]}, {&r[2]}, true); check_key(2, {&r[1]}, {&r[3]}, true);
+      bbmc::check(r[0].addr != r[1].addr, "two different keys were given the same slot");
+      bbmc::check(t.size() == 6 && t.contains(1) && t.contains(2), "table contents wrong at quiescence");
+      size_t n = 0; for (auto it = t.begin(); it != t.end(); ++it) n++;
+      bbmc::check(n == 6, "iteration and size disagree at quiescence");
+      break;
+    }
+    case 11: {
+      Map m(16);
+      for (int k = 10; k < 25; k++) bbmc::require(m.emplace(k, k * 3).second, "prefill");
+      ts.emplace_back([&] { do_emplace(m, 1, r[0]); do_find(m, 1, r[2]); });
+      ts.emplace_back([&] { do_emplace(m, 2, r[1]); do_find(m, 2, r[3]); });
+      for (auto& x : ts) x.join();
+      check_key(1, {&r[0]}, {&r[2]}, true); check_key(2, {&r[1]}, {&r[3]}, true);
+      bbmc::check(m.size() == 17 && m.contains(1) && m.contains(2), "growth dropped or duplicated a key");
+      break;
+    }
+    case 12: {
+      Map m(16);
+      for (int k = 0; k < 47; k++) { bbmc::step(); bbmc::require(m.emplace(k, k * 3).second, "prefill"); }   // 16 in the head, 31 in the 32-bucket successor
+      ts.emplace_back([&] { do_emplace(m, 50, r[0]); do_find(m, 50, r[2]); });
+      ts.emplace_back([&] { do_emplace(m, 51, r[1]); do_find(m, 51, r[3]); });
+      for (auto& x : ts) x.join();
+      check_key(50, {&r[0]}, {&r[2]}, true); check_key(51, {&r[1]}, {&r[3]}, true);
+      bbmc::check(m.size() == 49 && m.contains(50) && m.contains(51), "growth dropped or duplicated a key");
+      for (int k = 0; k < 47; k++) { bbmc::step(); bbmc::check(m.contains(k), "a key present before the growth disappeared"); }
       break;
     }
     case 4: case 5: {
